@@ -676,6 +676,41 @@ def check_pure(ctx, eff: Effects, res: Result, dotted: str, roots=("self",), con
                 res.ok(rule, fi.short, m.text(), detail_prefix + root + f":memo {m.memo[1]}", loc(m.fi, m.node))
                 check_cache_coherence(ctx, res, m.memo[0], m.memo[1])
                 continue
+            if consts and isinstance(m.node, ast.Call) and m.fi is fi:
+                # the purity is claimed for a VALUE of a flag (inplace=False).  The flag travels on in a derived form - an Enum, an
+                # options tuple, `placement.is_inplace` - that the literal folding cannot follow into the callee: undecided
+                fv = ctx.view(fi)
+
+                def mentions_flag(e, depth=0):
+                    for x in ast.walk(e):
+                        if isinstance(x, ast.Name):
+                            if x.id in consts:
+                                return True
+                            if depth < 4:
+                                for a_ in walk_no_nested(fi.node):
+                                    if isinstance(a_, ast.Assign) and any(isinstance(t_, ast.Name) and t_.id == x.id for t_ in a_.targets) and mentions_flag(a_.value, depth + 1):
+                                        return True
+                    return False
+
+                def opaque(e):
+                    """not a plain boolean combination of the flag with other simple terms (`inplace or k > 0` is readable: with the
+                    flag False it can still be True), but a value that went through a call / an object (`Placement.from_flag(inplace)`,
+                    `request.placement`, `placement.is_inplace`)"""
+                    return any(isinstance(x, (ast.Call, ast.Attribute, ast.Subscript)) for x in ast.walk(e)) or (isinstance(e, ast.Name) and e.id not in consts)
+
+                def aliases_root(e, depth=0):
+                    """the argument is (possibly) the object whose purity is claimed - `target_hg = hg` - not a carrier of the flag"""
+                    if isinstance(e, ast.Name):
+                        if e.id == root:
+                            return True
+                        if depth < 3:
+                            return any(isinstance(a_, ast.Assign) and any(isinstance(t_, ast.Name) and t_.id == e.id for t_ in a_.targets) and aliases_root(a_.value, depth + 1) for a_ in walk_no_nested(fi.node))
+                    return False
+
+                derived = [a_ for a_ in list(m.node.args) + [k.value for k in m.node.keywords] if not (isinstance(a_, ast.Name) and a_.id in consts) and not aliases_root(a_) and mentions_flag(a_) and opaque(a_)]
+                if derived:
+                    res.unknown(rule, fi.short, m.text(), detail_prefix + root, f"the callee is handed `{norm(derived[0])[:40]}`, a value derived from the flag; whether it modifies `{root}` for this value of the flag was not decided", loc(m.fi, m.node))
+                    continue
             res.violation(rule, fi.short, m.text(), detail_prefix + root, f"{m.why} - but {fi.short} must leave `{root}` unchanged", loc(m.fi, m.node))
 
 
